@@ -100,11 +100,15 @@ def impl_show(node, a, b, c, d):
     return buf.getvalue()
 
 
-def impl_visit(node, handlers, c_ast):
+def impl_visit(node, handlers, c_ast, mode=0):
     """handlers: {classname: 1 (visit_X, no recursion) | 2 (visit_X calling NodeVisitor.generic_visit)}.
-    Events: (class, "1") for an intercepting visit_X call, (class, "0") for a generic visit."""
+    Events: (class, "1") for an intercepting visit_X call, (class, "0") for a generic visit.
+    mode 0: one visitor class, one fresh instance.
+    mode 1: a base visitor class A (no visit_X of its own, or half of them) is used first on the same tree, by two instances; the
+            events reported are those of an instance of the derived class B(A) that defines / overrides the handlers - what a
+            visitor does must depend on its own class only, not on which other visitors ran before.
+    mode 2: the same instance visits the tree twice; the second traversal is reported."""
     events = []
-    ns = {}
 
     def mk(kind):
         def visit_X(self, n):
@@ -112,15 +116,30 @@ def impl_visit(node, handlers, c_ast):
             if kind == 2:
                 c_ast.NodeVisitor.generic_visit(self, n)
         return visit_X
-    for cname, kind in handlers.items():
-        ns["visit_" + cname] = mk(kind)
 
     def generic_visit(self, n):
         events.append((type(n).__name__, "0"))
         c_ast.NodeVisitor.generic_visit(self, n)
-    ns["generic_visit"] = generic_visit
-    V = type("V", (c_ast.NodeVisitor,), ns)
-    V().visit(node)
+    items = list(handlers.items())
+    if mode == 1:
+        half = items[: len(items) // 2]
+        nsA = {"visit_" + c: mk(3 - k) for c, k in half}      # A handles half of the classes, the other way round
+        nsA["generic_visit"] = generic_visit
+        A = type("A", (c_ast.NodeVisitor,), nsA)
+        A().visit(node)
+        A().visit(node)
+        B = type("B", (A,), {"visit_" + c: mk(k) for c, k in items})
+        del events[:]
+        B().visit(node)
+    else:
+        ns = {"visit_" + c: mk(k) for c, k in items}
+        ns["generic_visit"] = generic_visit
+        V = type("V", (c_ast.NodeVisitor,), ns)
+        v = V()
+        v.visit(node)
+        if mode == 2:
+            del events[:]
+            v.visit(node)
     return RS.join(US.join(e) for e in events)
 
 
